@@ -297,7 +297,13 @@ def evalImpl (rec : Rec) (root : Node) (w : World) (rs : Bool) (n : Node) (path 
       if !eSafe f then .error .unsafeE
       else
         match lookupSig w fn with
-        | none => .error .eval
+        | none =>
+          -- a name that can be imported but not called (a module): the arguments are evaluated first, the call fails afterwards
+          if w.modules.contains fn then
+            match evalItems rec true path cs st with
+            | .error e => .error e
+            | .ok _ => .error .eval
+          else .error .eval
         | some sig =>
           match evalItems rec true path cs st with
           | .error e => .error e
@@ -314,7 +320,12 @@ def evalImpl (rec : Rec) (root : Node) (w : World) (rs : Bool) (n : Node) (path 
       if !eSafe f then .error .unsafeE
       else
         match lookupSig w fn with
-        | none => .error .eval
+        | none =>
+          if w.modules.contains fn then
+            match evalItems rec true path cs st with
+            | .error e => .error e
+            | .ok _ => .error .eval
+          else .error .eval
         | some sig =>
           match evalItems rec true path cs st with
           | .error e => .error e
